@@ -64,7 +64,7 @@ def scripts_from(res):
     return [json.dumps(s, separators=(",", ":")) for s in res.printed("SCRIPT")]
 
 
-def run_test(ctx, binp, test, out, env=None, timeout=2400):
+def run_test(ctx, binp, test, out, env=None, timeout=7200):
     outp = ctx.path(out)
     e = dict(env or {})
     e["VERIF_OUT"] = outp
@@ -79,10 +79,10 @@ def run_test(ctx, binp, test, out, env=None, timeout=2400):
 
 def run(ctx):
     # ---- M + R: the input space
-    res = ctx.model_check("Rewrite", "Rewrite_mc.cfg", name="tlc_gen", timeout=1800, workers=4, defines={
+    res = ctx.model_check("Rewrite", "Rewrite_mc.cfg", name="tlc_gen", timeout=7200, workers=4, defines={
         "MaxDepth": 3, "MaxFan": 3, "MaxNodes": ctx.pick(4, 5), "Emit": "TRUE"})
     exhaustive = scripts_from(res)
-    sim = ctx.tlc("Rewrite", "Rewrite_mc.cfg", name="tlc_gen", timeout=1800, count=False,
+    sim = ctx.tlc("Rewrite", "Rewrite_mc.cfg", name="tlc_gen", timeout=7200, count=False,
                   simulate="num=%d" % ctx.pick(1500, 12000), depth=60, seed=ctx.seed, defines={
                       "MaxDepth": 3, "MaxFan": 3, "MaxNodes": 13, "Emit": "TRUE"})
     if not sim.ok:
@@ -134,7 +134,7 @@ def run(ctx):
                     nlines += 1
                 origin_bounds.append((first, nlines, name))
     acc, rej = ctx.validate_trace_sharded(
-        "Trace_Rewrite", "Trace_Rewrite.cfg", merged, header_lines=1, shards=ctx.pick(8, 16), name="tlcs", timeout=3000,
+        "Trace_Rewrite", "Trace_Rewrite.cfg", merged, header_lines=1, shards=8, name="tlcs", timeout=14400,
         group_start=lambda ln: '"ev":"shard"' in ln or '"back":0,' in ln)
 
     def origin_of(line):
